@@ -31,17 +31,27 @@ type Case struct {
 	Rel     string `json:"rel,omitempty"`
 }
 
-const gridH = 16
+// gridH: every (h <= gridH, l, prefix) is enumerated by TestGrid; above it TestGrid sweeps every (h, l) with a
+// fixed number of prefixes (see sweep) and rapid samples.
+var gridH = vk.Pick(16, 21)
+
+// sweepRandom / sweepWindow: per (h > gridH, l > sweepAll): that many random prefixes, and every value of every
+// run of sweepWindow adjacent prefix bits (rest random). Lengths l <= sweepAll get all 2^l prefixes.
+var sweepRandom = vk.Pick(512, 2048)
+var sweepWindow = vk.Pick(5, 6)
+
+const sweepAll = 8
 
 var checker = &vk.Checker[Case]{
 	ID: "C10",
-	Rule: "(height h<=32, length l<=h, l-bit prefix) with lengths 0,1,h-1,h and prefixes all-0/all-1/alternating/single-bit/random boosted, and pairs of equal height (descendant, diverging after a common prefix, independent); " +
-		"NewPath vs a constructive encoding, PathLen/PathHeight/PathBits/PathMask/PathStr vs their definitions, numeric order vs a pre-order comparator. Grid: every (h<=16,l,prefix), the pre-order walk of every full tree h<=16 must be strictly increasing, all pairs for h<=6. " +
-		"Non-trivial: l>=1 and prefix != 0 (upper half non-zero). Grid cases are distinct by construction; rapid cases are hashed only when h > 16.",
+	Rule: "(height h<=32, length l<=h, l-bit prefix) with lengths 0,1,h-1,h and prefixes all-0/all-1/alternating/single-bit/all-but-one-bit boosted beside random, sparse and dense ones, heights above the grid favoured, and pairs of equal height (descendant, diverging after a common prefix, independent, pre-order successor, sibling); " +
+		"NewPath vs a constructive encoding, PathLen/PathHeight/PathBits/PathMask/PathStr vs their definitions, numeric order of the words NewPath returned vs a pre-order comparator. Grid: every (h<=16,l,prefix) (h<=21 in the thorough tier), the pre-order walk of every such full tree must be strictly increasing in the library's words, all pairs for h<=6; " +
+		"sweep of EVERY (h above the grid .. 32, l): all prefixes for l<=8, else all-0/all-1/both alternating/every single bit/every all-but-one bit, every value of every window of 5 (thorough 6) adjacent prefix bits with the other bits random, and 512 (thorough 2048) random prefixes, each paired with its pre-order successor or its sibling. " +
+		"Non-trivial: l>=1 and prefix != 0 (upper half non-zero). Grid and sweep cases are distinct by construction (a prefix occurs once per (h,l)); rapid cases are hashed only when h is above the grid and the case is not one of the sweep's.",
 	Check:    check,
 	Classify: classify,
 	KeepLen:  1500,
-	Hashed:   func(c Case) bool { return c.H > gridH },
+	Hashed:   func(c Case) bool { return c.H > gridH && !inSweep(c) },
 }
 
 func classify(c Case) (bool, []string) {
@@ -65,6 +75,9 @@ func classify(c Case) (bool, []string) {
 	if c.L == 0 {
 		labels = append(labels, "root")
 	}
+	if c.H > 16 && c.L >= 2 && c.L <= c.H-2 {
+		labels = append(labels, "h>16:interior-length")
+	}
 	return c.L >= 1 && c.Prefix != 0, labels
 }
 
@@ -76,13 +89,15 @@ func bitsText(prefix uint64, l int) string {
 	return string(b)
 }
 
+// checkWord returns the word the LIBRARY built for the node (equal to the constructive encoding when no
+// failure is returned), so that the order checks judge library output.
 func checkWord(h, l int, prefix uint64) (uint64, *vk.Failure) {
 	want := model.PathWord(prefix, l, h)
 	var got uint64
 	var pl, ph int32
 	var pb, pm uint64
 	var ps string
-	if f := vk.Try(fmt.Sprintf("path functions (h=%d l=%d prefix=%b)", h, l, prefix), func() {
+	if f := vk.TryF(func() string { return fmt.Sprintf("path functions (h=%d l=%d prefix=%b)", h, l, prefix) }, func() {
 		got = bmtree.NewPath(prefix<<uint(h-l), int32(l), int32(h))
 		pl, ph = bmtree.PathLen(want), bmtree.PathHeight(want)
 		pb, pm = bmtree.PathBits(want), bmtree.PathMask(want)
@@ -114,7 +129,7 @@ func checkWord(h, l int, prefix uint64) (uint64, *vk.Failure) {
 			return ""
 		})
 	}
-	return want, nil
+	return got, nil
 }
 
 func checkOrder(h int, w1 uint64, p1 uint64, l1 int, w2 uint64, p2 uint64, l2 int) *vk.Failure {
@@ -143,14 +158,14 @@ func check(c Case) *vk.Failure {
 
 func genNode(t *rapid.T, h int, label string) (uint64, int) {
 	var l int
-	switch gen.Uniform(t, 6, label+".lclass") {
+	switch gen.Uniform(t, 12, label+".lclass") {
 	case 0:
 		l = 0
 	case 1:
 		l = min(1, h)
-	case 2:
+	case 2, 3:
 		l = h
-	case 3:
+	case 4, 5:
 		l = max(h-1, 0)
 	default:
 		l = gen.Uniform(t, h+1, label+".l")
@@ -160,7 +175,7 @@ func genNode(t *rapid.T, h int, label string) (uint64, int) {
 	}
 	full := uint64(1)<<uint(l) - 1
 	var p uint64
-	switch gen.Uniform(t, 7, label+".pclass") {
+	switch gen.Uniform(t, 12, label+".pclass") {
 	case 0:
 		p = 0
 	case 1:
@@ -171,24 +186,123 @@ func genNode(t *rapid.T, h int, label string) (uint64, int) {
 		p = 1 << uint(gen.Uniform(t, l, label+".bit"))
 	case 4:
 		p = full &^ (1 << uint(gen.Uniform(t, l, label+".bit")))
+	case 5: // sparse
+		p = gen.U64(t, label+".p") & gen.U64(t, label+".q") & full
+	case 6: // dense
+		p = (gen.U64(t, label+".p") | gen.U64(t, label+".q")) & full
 	default:
 		p = gen.U64(t, label+".p") & full
 	}
 	return p, l
 }
 
+// neighbour makes c a pair with the node's sibling (when asked for and the node is not the root) or else with
+// its pre-order successor in the complete tree of height c.H; the last node of the walk stays a single node.
+func neighbour(c Case, sibling bool) Case {
+	if sibling && c.L > 0 {
+		c.Has2, c.Rel, c.L2, c.Prefix2 = true, "sibling", c.L, c.Prefix^1
+		return c
+	}
+	if p2, l2, ok := model.Succ(uint64(c.Prefix), c.L, c.H); ok {
+		c.Has2, c.Rel, c.L2, c.Prefix2 = true, "successor", l2, vk.U64(p2)
+		return c
+	}
+	c.Has2, c.Rel, c.L2, c.Prefix2 = false, "", 0, 0
+	return c
+}
+
+// sweepPrefixes calls emit for the prefixes the sweep of TestGrid evaluates at (h, l): a pure function of
+// (VERIF_SEED, h, l); the case file carries the prefix itself.
+func sweepPrefixes(h, l int, emit func(p uint64, class string)) {
+	if l <= sweepAll {
+		for p := uint64(0); p < 1<<uint(l); p++ {
+			emit(p, "sweep:all-prefixes(l<=8)")
+		}
+		return
+	}
+	full := uint64(1)<<uint(l) - 1
+	base := vk.Mix(vk.Seed()*0x9e3779b97f4a7c15 ^ uint64(h)<<8 ^ uint64(l))
+	n := uint64(0)
+	rnd := func() uint64 { n++; return vk.Mix(base+n*0xd1342543de82ef95) & full }
+	emit(0, "sweep:structured")
+	emit(full, "sweep:structured")
+	emit(0x5555555555555555&full, "sweep:structured")
+	emit(0xaaaaaaaaaaaaaaaa&full, "sweep:structured")
+	for b := 0; b < l; b++ {
+		emit(1<<uint(b), "sweep:structured")
+		emit(full&^(1<<uint(b)), "sweep:structured")
+	}
+	w := sweepWindow
+	wmask := uint64(1)<<uint(w) - 1
+	for pos := 0; pos+w <= l; pos++ {
+		for v := uint64(0); v <= wmask; v++ {
+			emit(rnd()&^(wmask<<uint(pos))|v<<uint(pos), "sweep:window")
+		}
+	}
+	for i := 0; i < sweepRandom; i++ {
+		emit(rnd(), "sweep:random")
+	}
+}
+
+type sweepItem struct {
+	c     Case
+	class string
+}
+
+// sweepCases lists the cases of the sweep at (h, l) in evaluation order, every prefix once: the node paired
+// with its sibling (every fourth) or its pre-order successor.
+func sweepCases(h, l int) []sweepItem {
+	var out []sweepItem
+	seen := map[uint64]bool{}
+	n := 0
+	sweepPrefixes(h, l, func(p uint64, class string) {
+		n++
+		if seen[p] {
+			return
+		}
+		seen[p] = true
+		out = append(out, sweepItem{neighbour(Case{H: h, L: l, Prefix: vk.U64(p)}, n&3 == 0), class})
+	})
+	return out
+}
+
+var sweepSets = map[[2]int]map[Case]bool{}
+
+// inSweep tells whether c is one of the cases TestGrid's sweep evaluates (and counts by construction), so that
+// the same case drawn by rapid is not counted a second time.
+func inSweep(c Case) bool {
+	if c.H <= gridH || c.H > 32 || c.L < 0 || c.L > c.H {
+		return false
+	}
+	k := [2]int{c.H, c.L}
+	s, ok := sweepSets[k]
+	if !ok {
+		s = map[Case]bool{}
+		for _, it := range sweepCases(c.H, c.L) {
+			s[it.c] = true
+		}
+		sweepSets[k] = s
+	}
+	return s[c]
+}
+
 func genCase(t *rapid.T) Case {
 	var h int
-	if gen.Chance(t, 1, 2, "hboost") {
+	switch gen.Uniform(t, 8, "hclass") {
+	case 0, 1, 2:
 		h = rapid.SampledFrom([]int{0, 1, 2, 17, 30, 31, 32, 32}).Draw(t, "hb")
-	} else {
+	case 3:
 		h = gen.Uniform(t, 33, "h")
+	default: // the heights the exhaustive grid of the quick tier does not reach
+		h = 17 + gen.Uniform(t, 16, "h")
 	}
 	p, l := genNode(t, h, "n1")
 	c := Case{H: h, L: l, Prefix: vk.U64(p)}
-	if gen.Chance(t, 2, 3, "pair") {
+	if gen.Chance(t, 5, 6, "pair") {
 		c.Has2 = true
-		switch gen.Uniform(t, 4, "rel") {
+		switch gen.Uniform(t, 6, "rel") {
+		case 4, 5:
+			return neighbour(c, gen.Chance(t, 1, 2, "sibling"))
 		case 0:
 			c.Rel = "descendant"
 			l2 := l + gen.Uniform(t, h-l+1, "ext")
@@ -266,19 +380,69 @@ func TestGrid(t *testing.T) {
 				nodes = append(nodes, node{p, l})
 			}
 		}
-		for _, a := range nodes {
-			for _, b := range nodes {
+		words := make([]uint64, len(nodes)) // the LIBRARY's words (each was checked against the encoding above)
+		for i, a := range nodes {
+			if f := vk.Try(fmt.Sprintf("NewPath (h=%d l=%d prefix=%b)", h, a.l, a.p), func() {
+				words[i] = bmtree.NewPath(a.p<<uint(h-a.l), int32(a.l), int32(h))
+			}); f != nil {
+				fail(Case{H: h, L: a.l, Prefix: vk.U64(a.p)}, f)
+			}
+		}
+		for i, a := range nodes {
+			for j, b := range nodes {
 				evals++
 				if a.l >= 1 && a.p != 0 {
 					nontriv++
 				}
-				if f := checkOrder(h, model.PathWord(a.p, a.l, h), a.p, a.l, model.PathWord(b.p, b.l, h), b.p, b.l); f != nil {
+				if f := checkOrder(h, words[i], a.p, a.l, words[j], b.p, b.l); f != nil {
 					fail(Case{H: h, L: a.l, Prefix: vk.U64(a.p), Has2: true, L2: b.l, Prefix2: vk.U64(b.p), Rel: "grid-pair"}, f)
 				}
 			}
 		}
 	}
 	vk.CountConstructed(evals, nontriv, "grid")
-	vk.AddSample(map[string]any{"grid": "all nodes h<=16 + walk order + all pairs h<=6", "example": map[string]any{"h": 5, "l": 3, "prefix": "101", "word": fmt.Sprintf("%#x", model.PathWord(5, 3, 5))}})
-	vk.MarkExhaustive("every (h<=16,l,prefix); walk order of every full tree h<=16 (implies the order claim for all pairs of those heights); all pairs h<=6")
+	// Above the exhaustive heights EVERY (h, l) meets a fixed set of prefixes, so that no (h, l) is left to the
+	// chance of the rapid draws: each prefix as a pair with the node's pre-order successor (3 of 4) or its
+	// sibling, through the ordinary per-case check (a failing one goes through Eval and is written as a replayable
+	// case). The cases are distinct by construction; Hashed keeps rapid from counting one of them again.
+	perHL := int64(-1)
+	var sweepEvals, sweepNontriv int64
+	classes := map[string]int64{}
+	for h := gridH + 1; h <= 32; h++ {
+		for l := 0; l <= h; l++ {
+			items := sweepCases(h, l)
+			for _, it := range items {
+				c := it.c
+				f := check(c)
+				checker.Remember(c)
+				sweepEvals++
+				nt, labels := classify(c)
+				if nt {
+					sweepNontriv++
+				}
+				classes[it.class]++
+				for _, lb := range labels {
+					classes[lb]++
+				}
+				if f != nil {
+					fail(c, f)
+				}
+				if sweepEvals&255 == 0 {
+					if kf := checker.RunKeepers(); kf != nil {
+						fail(c, kf)
+					}
+				}
+			}
+			if l > sweepAll && (perHL < 0 || int64(len(items)) < perHL) {
+				perHL = int64(len(items))
+			}
+		}
+	}
+	vk.CountConstructed(sweepEvals, sweepNontriv, "sweep")
+	for lb, n := range classes {
+		vk.Label(lb, n)
+	}
+	vk.SetExtra("sweep_distinct_prefixes_per_(h,l>8)_at_least", fmt.Sprint(perHL))
+	vk.AddSample(map[string]any{"grid": fmt.Sprintf("all nodes h<=%d + walk order + all pairs h<=6", gridH), "example": map[string]any{"h": 5, "l": 3, "prefix": "101", "word": fmt.Sprintf("%#x", model.PathWord(5, 3, 5))}})
+	vk.MarkExhaustive(fmt.Sprintf("every (h<=%d,l,prefix); walk order of every full tree h<=%d (implies the order claim for all pairs of those heights); all pairs h<=6; every (h<=32,l<=8,prefix)", gridH, gridH))
 }
